@@ -2,7 +2,10 @@
 """Regenerates MANIFEST.json from props.json (single source of truth for per-property settings)."""
 import json, os
 V = os.path.dirname(os.path.abspath(__file__))
-props = json.load(open(os.path.join(V, "props.json")))
+import glob
+props = {}
+for f in sorted(glob.glob(os.path.join(V, "harness", "c[0-9][0-9]", "props.json"))):
+    props[os.path.basename(os.path.dirname(f)).upper()] = json.load(open(f))
 allids = [json.loads(l)["id"] for l in open(os.path.join(V, "properties.jsonl"))]
 hooks = json.load(open(os.path.join(V, "hooks.json")))
 checks = []
